@@ -51,7 +51,7 @@ def cubic_expected(cub, cw, ss, rtt, now):
 class C17(Prop):
     id = "C17"
     props_file = ["Props/C17.v", "Props/C17_Examples.v", "Props/C17_Bridge.v", "Props/C17_BridgeResend.v"]
-    coq_imports = ["From ONL Require Import Base.Cmp Tcp.Sender Tcp.Cubic."]
+    coq_imports = ["From ONL Require Import Base.Cmp Tcp.Sender Tcp.Cubic Tcp.AppSender."]
     n_quick = 700
     n_thorough = 12000
     shard = 60
@@ -79,7 +79,8 @@ class C17(Prop):
         "the Timer is taken as specified by C19 (fires its callback once at creation+timeout unless stopped; restart from its own callback re-arms); "
         "the monitor checks expiry instants against the armed deadlines",
     ]
-    assumptions = ["mss > 0, flow.size a multiple of the MSS (or None), no arrival_dist/size_dist, flow.start_time None, finish_time infinite",
+    assumptions = ["mss > 0; kind 'sender': flow.size a multiple of the MSS (or None), no arrival_dist/size_dist, no start_time, finish_time infinite; "
+                   "kind 'app' (coq/Tcp/AppSender.v): any flow.size, scripted arrival_dist / size_dist (non-negative writes), start_time, finish_time",
                    "RTT samples are non-negative (ack.time <= now); initial rtt_estimate > 0"]
     partial = ["the translated-definition tie covers the CongestionControl / TCPReno / TCPCubic method bodies and TCPPacketGenerator.put / "
                "timeout_callback (Props/C17_Bridge.v); resend_packet and the loop that stops acknowledged timers are tied by Props/C17_BridgeResend.v (the loop as one generated iteration run with fuel); run() is a generator and is tied by the correspondence and the monitor only",
@@ -87,6 +88,67 @@ class C17(Prop):
 
     # ---- generation -------------------------------------------------------------------------
     def gen_case(self, rng, tier):
+        # a quarter of the cases: the sender with the Flow's application process (kind 'app')
+        if rng.random() < 0.25:
+            return self.gen_app(rng, tier)
+        return self.gen_sender(rng, tier)
+
+    def gen_app(self, rng, tier):
+        """application-limited senders: scripted arrival_dist / size_dist, any flow size, start_time, finish_time"""
+        mss = rng.choice([512, 512, 100])
+        case = {"kind": "app", "alg": "reno", "mss": mss, "nseg": 0}
+        case["cwnd"] = T.qj(F(mss * rng.choice([1, 2, 4, 4, 8])))
+        case["ssth"] = T.qj(F(65535) if rng.random() < 0.5 else F(mss * rng.randint(1, 8)))
+        case["rtt0"] = T.qj(rng.choice([F(3, 8), F(3, 8), F(1, 2), F(1, 4), F(1)]))
+        r = rng.random()
+        if r < 0.3:
+            case["size"] = 0                                   # flow.size None
+        elif r < 0.6:
+            case["size"] = mss * rng.randint(1, 12)
+        elif r < 0.85:
+            case["size"] = mss * rng.randint(1, 8) + rng.choice([1, mss // 2, mss - 1])    # a trailing partial segment
+        else:
+            case["size"] = rng.randint(1, mss - 1)             # less than one segment
+        case["start"] = T.qj(rng.choice([F(0), F(0), F(0), F(1, 4), F(1)]))
+        case["finish"] = None if rng.random() < 0.75 else T.qj(rng.choice([F(1, 2), F(3), F(10)]))
+        if rng.random() < 0.7:
+            case["arr"] = [T.qj(rng.choice([F(0), F(0), F(1, 64), F(1, 4), F(1, 2), F(1), F(1), F(2)])) for _ in range(rng.randint(2, 12))]
+            case["arr_default"] = T.qj(rng.choice([F(4096), F(4096), F(1)]))
+        else:
+            case["arr"], case["arr_default"] = None, None
+        if rng.random() < 0.6:
+            sizes = [mss, mss, 2 * mss, 3 * mss, 4 * mss, mss // 2, mss + mss // 2, 1, 2 * mss + 1]
+            if case["arr"] is not None:
+                sizes.append(0)                                # a zero-byte write only where time passes between writes
+            case["siz"] = [rng.choice(sizes) for _ in range(rng.randint(1, 10))]
+            case["siz_default"] = rng.choice([mss, mss, 2 * mss, mss // 2])
+        else:
+            case["siz"], case["siz_default"] = None, None
+        script = [["wait", "1/64"]]
+
+        def sample():
+            return T.qj(F(rng.randint(0, 96), 64))
+
+        def dt():
+            return T.qj(rng.choice([F(0), F(1, 64), F(1, 16), F(1, 4), F(1, 2), F(1)]))
+        for _ in range(rng.randint(3, 12)):
+            r = rng.random()
+            if r < 0.35:
+                script.append(["wait", T.qj(rng.choice([F(1, 4), F(1, 2), F(1), F(1), F(2), F(3)]))])
+            elif r < 0.65:
+                for _ in range(rng.randint(1, 3)):
+                    k = rng.choice([1, 1, 1, 2, 3])
+                    script.append(["new", dt(), k, rng.randint(0, k - 1), sample(), True])
+            elif r < 0.85:
+                for _ in range(rng.randint(1, 5)):
+                    script.append(["dup", dt(), rng.randint(1, 4), sample()])
+            else:
+                script.append(["wait_rto", T.qj(rng.choice([F(1), F(3, 2), F(2)]))])
+        script.append(["wait", "1/64"])
+        case["script"] = script
+        return case
+
+    def gen_sender(self, rng, tier):
         alg = "reno" if rng.random() < 0.7 else "cubic"
         case = {"kind": "sender", "alg": alg}
         if alg == "reno":
@@ -158,6 +220,12 @@ class C17(Prop):
 
     # ---- model ------------------------------------------------------------------------------
     def agree_term(self, case, obs):
+        if case["kind"] == "app":
+            init = f"(init {cf.q(case['cwnd'])} {cf.q(case['ssth'])} {cf.q(case['rtt0'])})"
+            st0 = T.coq_state(obs["init"])
+            ents = cf.lst([T.coq_aentry(e) for e in obs["entries"]], sep=";\n  ")
+            return (f"state_exact {init} {st0} && app_eqb app0 {T.coq_app(obs['init'])} && "
+                    f"check_atrace {FX} (Z.to_nat 5000) {T.coq_acfg(case)} {st0} {T.coq_app(obs['init'])}\n [{ents[1:-1]}]")
         cfg = T.coq_cfg(case)
         init = f"(init {cf.q(case['cwnd'])} {cf.q(case['ssth'])} {cf.q(case['rtt0'])})"
         st0 = T.coq_state(obs["init"])
@@ -176,6 +244,7 @@ class C17(Prop):
     def monitor(self, case, obs):
         msgs = []
         mss = case["mss"]
+        is_app = case["kind"] == "app"
         fsize = case["nseg"] * mss
         pre = obs["init"]
         next_new = 0
@@ -296,12 +365,18 @@ class C17(Prop):
                 same(pre, post, ["ssth", "dup", "la", "ns", "srtt", "rttvar", "sent", "ccnt"], "timeout-changes-state", i)
                 if [t for t in tkeys(pre) if t[0] != pid] != [t for t in tkeys(post) if t[0] != pid]:
                     msgs.append(f"timeout-changes-state: event {i} changed other timers")
-            elif ev[0] == "wake":
+            elif ev[0] in ("wake", "appwake"):
+                # one resumption of run(): by its Initialize / granted StoreGet, or (appwake) by the Timeout of start_time /
+                # of the next application write.  The window is the one in force NOW (pre-state: nothing else runs in between).
                 same(pre, post, ["cwnd", "ssth", "la", "dup", "srtt", "rttvar", "rto", "ccnt", "cnt"], "send-changes-state", i)
                 ns = pre["ns"]
                 for (pid, size) in tx:
                     if pid != ns or size != mss or pid != next_new:
                         msgs.append(f"send-numbering: event {i}: segment ({pid},{size}) emitted, expected ({ns},{mss})")
+                        break
+                    if is_app and pid + mss > post["sb"]:
+                        msgs.append(f"send-guard: event {i}: segment {pid} sent with only {post['sb']} bytes buffered from the application: "
+                                    f"next_seq + MSS = {pid + mss} exceeds min(buffered, last_ack + cwnd)")
                         break
                     if pid + mss > pre["la"] + cw or (fsize and pid + mss > fsize):
                         msgs.append(f"send-guard: event {i}: segment {pid} sent with last_ack {pre['la']} cwnd {cw} flow size {fsize}: "
@@ -313,7 +388,11 @@ class C17(Prop):
                     msgs.append(f"send-numbering: event {i}: next_seq {pre['ns']} -> {post['ns']} with {len(tx)} segments emitted")
                 if tx and post["ns"] - post["la"] > cw2:
                     msgs.append(f"send-guard: event {i}: next_seq - last_ack = {post['ns'] - post['la']} exceeds cwnd {cw2} after sending")
-                if not post["fin"] and not (fsize and ns >= fsize) and ns + mss <= pre["la"] + cw and (not fsize or ns + mss <= fsize):
+                if is_app:
+                    stalls = (not post["fin"] and post["sleep"] is None and ns + mss <= pre["la"] + cw and ns + mss <= post["sb"])
+                else:
+                    stalls = not post["fin"] and not (fsize and ns >= fsize) and ns + mss <= pre["la"] + cw and (not fsize or ns + mss <= fsize)
+                if stalls:
                     msgs.append(f"send-guard-stalls: event {i}: stopped sending at next_seq {ns} although next_seq + MSS <= "
                                 f"min(buffered, last_ack + cwnd) (last_ack {pre['la']}, cwnd {cw})")
                 newt = tkeys(post)[len(tkeys(pre)):]
@@ -334,6 +413,8 @@ class C17(Prop):
 
     def nontrivial(self, case, obs):
         ents = obs["entries"]
+        if case["kind"] == "app":
+            return any(e["ev"][0] == "appwake" for e in ents) and any(e["tx"] for e in ents) and len(ents) >= 5
         if len(ents) < 8:
             return False
         pre = obs["init"]
@@ -365,9 +446,28 @@ class C17(Prop):
                 yield {**case, "script": t}
         if case["nseg"] > 8:
             yield {**case, "nseg": 8}
+        if case["kind"] == "app":
+            for k in ("arr", "siz"):
+                if case[k]:
+                    for i in range(len(case[k])):
+                        yield {**case, k: case[k][:i] + case[k][i + 1:]}
+            if case["finish"] is not None:
+                yield {**case, "finish": None}
+            if T.fr(case["start"]) != 0:
+                yield {**case, "start": "0/1"}
 
     def describe(self, case, obs):
         keys = [f"sender:{case['alg']}" + (":preset" if case.get("cubic_preset") else "")]
+        if case["kind"] == "app":
+            keys = ["app", "app:arrival_dist" if case["arr"] is not None else "app:no-arrival_dist",
+                    "app:size_dist" if case["siz"] is not None else "app:no-size_dist",
+                    "app:size=" + ("none" if not case["size"] else "multiple" if case["size"] % case["mss"] == 0 else "partial-tail")]
+            if case["finish"] is not None:
+                keys.append("app:finish_time")
+            if T.fr(case["start"]) != 0:
+                keys.append("app:start_time")
+            if any(e["ev"][0] == "appwake" and e["tx"] for e in obs["entries"]):
+                keys.append("app:sends-on-application-write")
         pre = obs["init"]
         seen = set()
         for e in obs["entries"]:
